@@ -224,11 +224,12 @@ def r4(ctx):
     master = fi.params[0]
     cls = ana.prog.cls("containers.results.MultipleDataSeriesResult")
     kws = {k.arg: k.value for k in ctor[0].node.keywords}
+    b = ana.builder(fi, no_inline=ana.known)
     for f in cls.fields:
         if f == "point_labels":
             continue
         v = kws.get(f)
-        ok = isinstance(v, ast.Attribute) and v.attr == f and isinstance(v.value, ast.Name) and v.value.id == master
+        ok = v is not None and b.term(v) == Attr(Sym(master), f)      # through temporaries, if any
         ctx.check(ok, fi, f"`{f}` is master_result.{f}", line=v.lineno if v is not None else ctor[0].node.lineno, role=f"copy:{f}",
                   expected=f"{f}={master}.{f}", found=unparse(v) if v is not None else "missing")
 
